@@ -128,3 +128,93 @@ func (f *Func) MiniGo() (string, bool) {
 	b, k := mgBlock(f.Body)
 	return fmt.Sprintf("{| f_name := %q; f_params := [%s]; f_body := %s |}", f.Name, strings.Join(ps, "; "), b), ok && k
 }
+
+// ---------------------------------------------------------------- MiniGoL (loops, nested blocks)
+
+func mglBlock(ss []*Stmt) (string, bool) {
+	if len(ss) == 0 {
+		return "LNil", true
+	}
+	s, ok := ss[0].MiniGoL()
+	r, ok2 := mglBlock(ss[1:])
+	return fmt.Sprintf("(LCons %s %s)", s, r), ok && ok2
+}
+
+func (s *Stmt) MiniGoL() (string, bool) {
+	switch s.Op {
+	case "define", "var", "assign", "opassign", "incdec":
+		g, ok := s.MiniGo()
+		return fmt.Sprintf("(LSimple %s)", g), ok
+	case "if":
+		c, ok := s.E.MiniGo()
+		th, ok1 := mglBlock(s.Body)
+		if !s.HasElse {
+			return fmt.Sprintf("(LIf %s %s None)", c, th), ok && ok1
+		}
+		el, ok2 := mglBlock(s.Else)
+		return fmt.Sprintf("(LIf %s %s (Some %s))", c, th, el), ok && ok1 && ok2
+	case "return":
+		if len(s.Es) != 1 {
+			return "", false
+		}
+		e, ok := s.Es[0].MiniGo()
+		return fmt.Sprintf("(LReturn %s)", e), ok
+	case "break":
+		return "LBreak", true
+	case "continue":
+		return "LContinue", true
+	case "block":
+		b, ok := mglBlock(s.Body)
+		return fmt.Sprintf("(LBlock %s)", b), ok
+	case "for":
+		ok := true
+		init, cond, post := "None", "None", "None"
+		if s.Init != nil {
+			if s.Init.Op != "define" {
+				return "", false
+			}
+			e := s.Init.E
+			var es string
+			var k bool
+			if e.Op == "tlit" && e.T.K == KU64 {
+				es, k = fmt.Sprintf("(ELit %d%%Z)", e.Val), true
+			} else {
+				es, k = e.MiniGo()
+			}
+			ok = ok && k
+			init = fmt.Sprintf("(Some (%q, %s))", s.Init.Name, es)
+		}
+		if s.E != nil {
+			c, k := s.E.MiniGo()
+			ok = ok && k
+			cond = fmt.Sprintf("(Some %s)", c)
+		}
+		if s.Post != nil {
+			p, k := s.Post.MiniGo()
+			ok = ok && k
+			post = fmt.Sprintf("(Some %s)", p)
+		}
+		b, k := mglBlock(s.Body)
+		return fmt.Sprintf("(LFor %s %s %s %s)", init, cond, post, b), ok && k
+	}
+	return "", false
+}
+
+// MiniGoL renders the function as an lfunc record.
+func (f *Func) MiniGoL() (string, bool) {
+	if f.Recv != nil || len(f.Results) != 1 {
+		return "", false
+	}
+	ok := true
+	var ps []string
+	for _, p := range f.Params {
+		t, k := mgType(p.T)
+		ok = ok && k
+		ps = append(ps, fmt.Sprintf("(%q, %s)", p.Name, t))
+	}
+	if _, k := mgType(f.Results[0]); !k {
+		ok = false
+	}
+	b, k := mglBlock(f.Body)
+	return fmt.Sprintf("{| lf_name := %q; lf_params := [%s]; lf_body := %s |}", f.Name, strings.Join(ps, "; "), b), ok && k
+}
